@@ -597,6 +597,12 @@ pub fn short_err(r: &Result<Obs, String>) -> String {
 
 /// Execute one history with every monitor.
 pub fn run_history<KK: KeyKind>(ctx: &mut Ctx, h: &History, opts: &RunOpts) -> HistStats {
+    let st = run_history_inner::<KK>(ctx, h, opts);
+    ctx.trace_end();
+    st
+}
+
+fn run_history_inner<KK: KeyKind>(ctx: &mut Ctx, h: &History, opts: &RunOpts) -> HistStats {
     let ktn = KK::name();
     let replay = || json!({"kind": "history", "kt": KK::KT.name(), "faulty": KK::FAULTY, "history": serde_json::to_value(h).unwrap()});
     if cfg!(miri) && ctx.expired() {
